@@ -272,9 +272,33 @@ func (g *c1gen) multiAssignStmt() []string {
 					return []string{a + ", " + b + " = " + f.name + "(" + g.args(f, cc) + ")"}
 				}
 				n1, n2 := g.newName("v"), g.newName("v")
+				// redeclaration: one operand of := is a variable of the SAME scope (possibly captured by a
+				// closure or a pointer before): it is assigned, not created anew
+				re1, re2 := false, false
+				if g.r.chance(45) {
+					for _, v := range g.sc.vars {
+						if g.writable(v) && v.fdepth == g.fdepth && !v.noShadow && g.r.bool() {
+							if v.t == f.results[1] {
+								n2, re2 = v.name, true
+								break
+							}
+							if v.t == f.results[0] {
+								n1, re1 = v.name, true
+								break
+							}
+						}
+					}
+				}
 				line := n1 + ", " + n2 + " := " + f.name + "(" + g.args(f, cc) + ")"
-				g.declare(&c1var{name: n1, t: f.results[0]})
-				g.declare(&c1var{name: n2, t: f.results[1]})
+				if !re1 {
+					g.declare(&c1var{name: n1, t: f.results[0]})
+				}
+				if !re2 {
+					g.declare(&c1var{name: n2, t: f.results[1]})
+				}
+				if re1 || re2 {
+					g.f("redeclare")
+				}
 				return []string{line}
 			}
 		}
